@@ -1,4 +1,3 @@
-import Sucds.Proofs.GenAll
 import Sucds.Proofs.C09GenAux
 /-! # C09 over the definitions *generated from the Rust sources* (`src/int_vectors/compact_vector.rs`)
 
